@@ -299,6 +299,8 @@ class LenRel:
             if k == (1, 1):
                 r = self.le_len(b, args[0], key, at, True, depth + 1)
                 return ("%s, so +1 <= len" % r) if r and self.unchanged(b, key, at, pt) else None
+            if k not in (None, "empty") and k[0] == k[1] and k[0] >= 1:
+                return self._needle_end(b, args[0], k[0], key, at, pt)
             return None
         if sh == "wrapping_sub" and "core::num::" in cd and len(args) == 2:
             k = self.iv.op(b, args[1], at.bi)
@@ -321,6 +323,10 @@ class LenRel:
         if op_ == "Add" and k == (1, 1) and not strict:
             r = self.le_len(b, rv["ops"][0], key, at, True, depth + 1)
             return ("%s, so +1 <= len" % r) if r and self.unchanged(b, key, at, pt) else None
+        if op_ == "Add" and k not in (None, "empty") and k[0] == k[1] and k[0] >= 1 and not strict:
+            r = self._needle_end(b, rv["ops"][0], k[0], key, at, pt)
+            if r:
+                return r
         if op_ == "Sub" and k not in (None, "empty") and k[0] >= 0 and k[0] == k[1]:
             x = self.iv.op(b, rv["ops"][0], at.bi)
             if x not in (None, "empty") and x[0] >= k[1]:
@@ -328,6 +334,28 @@ class LenRel:
                 r = self.le_len(b, rv["ops"][0], key, at, strict and k[0] == 0, depth + 1)
                 return ("%s, minus %d (no wrap: value >= %d)" % (r, k[0], x[0])) if r and self.unchanged(b, key, at, pt) else None
         return None
+
+    def _needle_end(self, b, op, k, key, at, pt):
+        """`idx + k <= len` where idx is the position at which `memmem::find(buf, needle)` / `str::find(needle)` found a constant needle of
+        length >= k"""
+        p = flow.op_place(op)
+        if p is None:
+            return None
+        src = self._origin(b, p, at)
+        if src is None:
+            return None
+        (cbi, t), via_next, names = src
+        cd = callee_def(t)
+        if cd not in ("memchr::memmem::find", "core::str::<impl str>::find") or via_next or names != ["Some", "0"] or len(t["args"]) < 2:
+            return None
+        cat = Point(cbi, None)
+        if self.key_of(b, t["args"][0], cat) != key or not self.unchanged(b, key, cat, pt):
+            return None
+        c = flow.const_of(b, t["args"][1])
+        if c is None or c.get("c") not in ("str", "bstr"):
+            return None
+        n = len(c["v"].encode("utf-8", "surrogateescape")) if isinstance(c["v"], str) else len(c["v"])
+        return ("%s found a needle of %d bytes at that position, so +%d <= len" % (short(cd), n, k)) if n >= k else None
 
     def _producer_projection(self, b, p, key, pt, strict):
         """`(x as Some).0`, `x.1`, `((x as Ok).0 as Complete).0.0` ... where x comes from a PRODUCERS call on the buffer (the projection may be
@@ -410,6 +438,30 @@ class LenRel:
                     c = flow.const_of(b, t["args"][1])
                     if c is not None and c.get("c") in ("str", "bstr"):
                         lo = max(lo, len(c["v"].encode("utf-8", "surrogateescape")) if isinstance(c["v"], str) else len(c["v"]))
+            elif f[0] == "call" and f[2] is False and short(f[1]) in ("is_empty",) and f[1].startswith(("core::slice::", "core::str::", "bytes::", "alloc::vec::", "alloc::string::")):
+                # `!buf.is_empty()`
+                t = b.blocks[f[3]]["term"]
+                at = Point(f[3], None)
+                if t["args"] and self.key_of(b, t["args"][0], at) == key and self.unchanged(b, key, at, pt):
+                    lo = max(lo, 1)
+            elif f[0] == "enum" and f[2] == frozenset({"Some"}) and not f[3][1]:
+                # `buf.first()` / `last()` / `split_first()` / `split_last()` returned Some: the buffer has an element
+                l = f[3][0]
+                for _ in range(6):
+                    ds = [d for d in b.defs().get(l, []) if d["kind"] != "mutarg"]
+                    if len(ds) != 1:
+                        break
+                    d = ds[0]
+                    if d["kind"] == "assign" and d["rv"]["k"] == "use" and flow.op_place(d["rv"]["ops"][0]) is not None and not flow.op_place(d["rv"]["ops"][0])["proj"]:
+                        l = flow.op_place(d["rv"]["ops"][0])["l"]
+                        continue
+                    if d["kind"] == "call":
+                        cd = callee_def(d["term"])
+                        if short(cd) in ("first", "last", "split_first", "split_last") and cd.startswith("core::slice::") and d["term"]["args"]:
+                            at = Point(d["bi"], None)
+                            if self.key_of(b, d["term"]["args"][0], at) == key and self.unchanged(b, key, at, pt):
+                                lo = max(lo, 1)
+                    break
             elif f[0] == "cmp":
                 for si, st in enumerate(b.blocks[f[3]]["stmts"]):
                     rv = st["rv"]
@@ -433,6 +485,8 @@ class LenRel:
                                 lo = max(lo, o[0] + 1)
                             elif op == "Eq":
                                 lo = max(lo, o[0])
+                            elif op == "Ne" and o == (0, 0):
+                                lo = max(lo, 1)
         return lo
 
     def _by_guard(self, b, op, key, pt, strict):
